@@ -147,15 +147,31 @@ class Index:
                     self.defn.setdefault(p, n)
                     p = self.by_id.get(p, {}).get('previousDecl')
         self.sugar = {}
+        self.ambiguous_sugar = set()
         self._collect_sugar()
         self.tmpl_defaults = {}
+        self.tmpl_param_defaults = {}   # template name -> {param index: index of the earlier parameter its default names}
         for i, n in self.by_id.items():
             if n.get('kind') == 'ClassTemplateDecl':
-                defs = []
+                defs = []; pnames = []
                 for c in n.get('inner', []):
                     if c.get('kind') in ('TemplateTypeParmDecl', 'NonTypeTemplateParmDecl'):
                         da = c.get('defaultArg')
                         defs.append(norm(da['type']['qualType']) if da and 'type' in da else None)
+                        # `template <size_t L, size_t H = L>`: the default names an earlier parameter
+                        if da and da.get('isExpr'):
+                            def first_ref(x):
+                                if not isinstance(x, dict): return None
+                                if x.get('kind') == 'DeclRefExpr': return (x.get('referencedDecl') or {}).get('name')
+                                for y in x.get('inner', []):
+                                    r = first_ref(y)
+                                    if r: return r
+                                return None
+                            exprs = [x for x in c.get('inner', []) if x.get('kind') == 'TemplateArgument']
+                            inner_kinds = [y.get('kind') for x in exprs for y in x.get('inner', [])]
+                            ref = first_ref(exprs[0]) if exprs and inner_kinds in (['DeclRefExpr'], ['ImplicitCastExpr']) else None
+                            if ref in pnames: self.tmpl_param_defaults.setdefault(n.get('name'), {})[len(defs) - 1] = pnames.index(ref)
+                        pnames.append(c.get('name'))
                 self.tmpl_defaults[n.get('name')] = defs
         self.rec_by_name = {}
         self.rec_names_cache = {}
@@ -198,9 +214,14 @@ class Index:
             t = n.get('type')
             if isinstance(t, dict) and 'desugaredQualType' in t and 'qualType' in t:
                 a = norm(t['qualType']); b = t['desugaredQualType']
-                if a != norm(b): self.sugar.setdefault(a, b)
+                if a != norm(b):
+                    # an alias name that stands for different types in different scopes / instantiations (local `using`)
+                    # cannot be resolved by name: it is dropped, and a type only known by that name is an extraction break
+                    if a in self.sugar and norm(self.sugar[a]) != norm(b): self.ambiguous_sugar.add(a)
+                    self.sugar.setdefault(a, b)
             for c in n.get('inner', []): walk(c)
         for d in self.docs: walk(d)
+        for a in self.ambiguous_sugar: self.sugar.pop(a, None)
 
     @staticmethod
     def body(fn):
